@@ -52,6 +52,8 @@ def obligations(tier):
     if is_open:
         obs.append(Ob("L1.is_valid_total[known: impossible date]", "c09.py", "is_valid_total", {"only_impossible_dates": True},
                       expect="known", finding=KEY_IMPOSSIBLE, timeout=t))
+    obs.append(Ob("L1.is_valid_total[TAG / PYTAG spellings]", "c09.py", "is_valid_total_tag", {}, timeout=t,
+                  bounds="every alternative of PART_PATTERNS TAG and PYTAG plus two non-spellings each; parts 0..99"))
     obs.append(Ob("L1.is_valid_total[YYYY.JJJ]", "c09.py", "is_valid_total_doy", {}, timeout=t))
     obs.append(Ob("L1.is_valid_total[{pycalver}]", "c09.py", "is_valid_total_v1", {}, timeout=t))
     # L3a: the scope given on the command line is the one used, independent of commit/tag/push
